@@ -14,6 +14,7 @@ import (
 	"errors"
 	"fmt"
 	"io"
+	"os"
 	"sort"
 	"strconv"
 	"strings"
@@ -902,7 +903,7 @@ func (rn *runner) exDatagram() string {
 		// The sender's estimate of the largest payload is optimistic when the path MTU (not the advertised
 		// frame size) is the bound: its packer silently discards a DATAGRAM frame that does not fit. Step
 		// down until one is actually delivered (or the client fails).
-		for try := 0; try < 12 && size > 0; try++ {
+		for try := 0; try < 16 && size > 0; try++ {
 			payload := make([]byte, size)
 			for i := range payload {
 				payload[i] = byte(i*13 + 5)
@@ -910,23 +911,27 @@ func (rn *runner) exDatagram() string {
 			if err := s.srv.SendDatagram(payload); err != nil {
 				return "srv-send:" + canonErr(err)
 			}
-			if c, bad := s.clientFailed(time.Second); bad {
+			// (short waits: the RTT is 20 ms, and the whole search must fit well inside a 5 s idle timeout)
+			if c, bad := s.clientFailed(100 * time.Millisecond); bad {
 				return c
 			}
-			rctx, cancel := context.WithTimeout(s.ctx, time.Second)
+			rctx, cancel := context.WithTimeout(s.ctx, 50*time.Millisecond)
 			got, err := s.cli.ReceiveDatagram(rctx)
 			cancel()
 			if err != nil {
 				// (with datagrams disabled locally the API refuses at once; a DATAGRAM frame that really
 				// arrives then fails the connection, which clientFailed reports)
 				if strings.Contains(err.Error(), "datagram support disabled") || errors.Is(err, context.DeadlineExceeded) {
-					size -= 8
+					size -= 4
 					continue
 				}
 				return "cli-recv:" + canonErr(err)
 			}
 			if len(got) != len(payload) || string(got) != string(payload) {
 				return fmt.Sprintf("corrupt n=%d", len(got))
+			}
+			if os.Getenv("LIMITS_DEBUG") != "" {
+				return fmt.Sprintf("ok try=%d size=%d first=%d", try, size, tl.MaxDatagramPayloadSize)
 			}
 			return "ok"
 		}
@@ -950,7 +955,7 @@ func (rn *runner) exIdle() string {
 		if mit == 0 {
 			return "noidle"
 		}
-		if s.a.get("imsu") < 1 || s.a.get("imsdu") < 1 {
+		if s.a.get("imsu") < 1 || s.a.get("imsdu") < 1 || s.a.get("imd") < 1 {
 			return "nochannel"
 		}
 		if mit <= idleSettle+idleMargin || mit >= serverIdle {
